@@ -9,6 +9,19 @@ muts = json.load(open(os.path.join(here, "mutants.json")))
 flt = sys.argv[1:]
 sel = [m for m in muts if not flt or any(f == m["prop"] or f in m["id"] for f in flt)]
 bad = 0
+ENV = dict(os.environ, GOFLAGS="-mod=mod", GOPROXY="off", GOSUMDB="off", GOTOOLCHAIN="local")
+baseline = {}
+def base_failed(prop, tier):
+    """obligations that fail on the unchanged tree (must be none): they are not evidence that a mutant is caught"""
+    if (prop, tier) not in baseline:
+        tmpb = tempfile.mkdtemp(prefix="govc-mutb-")
+        r = subprocess.run([os.path.join(verif, "bin/govc"), "check", "-prop", prop, "-tier", tier, "-repo", "/repo", "-verif", os.path.join(tmpb, "v"), "-no-evidence"], capture_output=True, text=True, env=ENV)
+        shutil.rmtree(tmpb, ignore_errors=True)
+        fs = {l.split()[1] for l in (r.stdout + r.stderr).splitlines() if l.startswith("FAILED ") and "lemma#collKeyInjective" not in l}
+        if fs:
+            print(f"WARNING: {prop} {tier} fails on the unchanged tree: {sorted(fs)[:3]}")
+        baseline[(prop, tier)] = fs
+    return baseline[(prop, tier)]
 for m in sel:
     tmp = tempfile.mkdtemp(prefix="govc-mut-")
     try:
@@ -26,6 +39,7 @@ for m in sel:
         out = r.stdout + r.stderr
         # expectation file of the real /verif is not used in the scratch verif dir (no expect there)
         failed = [l.split()[1] for l in out.splitlines() if l.startswith("FAILED ")]
+        failed = [f for f in failed if f not in base_failed(m["prop"], tier)]
         ok = r.returncode == 1 and any(m["expect"] in f for f in failed)
         print(("caught   " if ok else "MISSED   ") + f"{m['id']:28s} {m['prop']} exit={r.returncode} failed={failed[:4]}")
         if not ok:
